@@ -19,7 +19,7 @@ chk("C03", "lbfuzz", "Pool ledger (address -> issued/freed, capacity) asserted i
 chk("C16", "lbfuzz", "Scripted io.Reader/io.Writer monitors (they know every byte they produced/accepted from a position-keyed PRF stream) under seeded random Reader/Writer call sequences on NewReader/NewWriter/NewIOReader/NewIOWriter; every returned byte, Len, error surfacing/mapping and the bytes offered to the sink across successive Flush calls are asserted.",
     "Sources/sinks stay inside the io.Reader/io.Writer contracts (no negative counts, short write => error); stand-in pool; buffer-level oracle failures inside adapter cases keep their C01-C03 tag.",
     "runtime monitoring: scripted source/sink monitors + reference stream model over seeded call sequences")
-chk("C04", "connmon", "Real TCP/unix connections between netpoll endpoints; the stream of each connection is PRF(seed, position), written with random Writer mixes and verified byte by byte by the receiver (handler or blocking reader) with random Reader mixes, socket-buffer sizes, reader stalls and hook-point jitter; end-of-stream only after exactly the flushed byte count.",
+chk("C04", "connmon", "Real TCP/unix connections between netpoll endpoints; the stream of each connection is PRF(seed, position), written with random Writer mixes and verified byte by byte by the receiver (handler or blocking reader) with random Reader mixes, socket-buffer sizes, reader stalls, hook-point jitter and (half of the trials) spurious EAGAIN at the sendmsg wrapper; end-of-stream only after exactly the flushed byte count.",
     "Linux epoll poller, non-race build (the lock-free buffer hand-off runs); one-way streams closed with FIN; guarantee ends at the first write error.",
     "runtime monitoring: position-keyed stream oracle on live connections + hook-point delay injection")
 
